@@ -50,11 +50,11 @@ class Outcome:
             else:
                 unlisted.append(v)
         for v in unlisted:
+            # the failed obligation is named on its own line; the VIOLATION line has exactly the prescribed shape
+            print('FAILED-OBLIGATION property=%s obligation=%s' % (self.pid, json.dumps(v['obligation'])))
             line = 'VIOLATION property=%s replay=%s' % (self.pid, v['replay'])
             if v['input'] is None:
-                line += ' obligation=%s no-failing-input-found' % json.dumps(v['obligation'])
-            else:
-                line += ' obligation=%s' % json.dumps(v['obligation'])
+                line += ' no-failing-input-found'
             print(line)
         cov = dict(self.coverage)
         if self.inconclusive:
